@@ -479,6 +479,9 @@ var c17RampKinds = []string{
 	"listenpacket-close", "advertise-close", "listen-close", "dial-close-closeconnection", "dial-closeconnection",
 	"dial-accept-both-close", "ping", "ping-unknown-node", "traceroute", "dial-unknown-service", "dial-ctx-cancel",
 	"datagram-to-unknown-service",
+	// the same failing operations called with a context that is never cancelled (context.Background()), as an
+	// embedding program or a long-lived caller would: what they started has to end with the call itself
+	"ping-unknown-node-bg", "ping-expired-bg", "traceroute-bg",
 }
 
 var c17FrameRe = regexp.MustCompile(`^#\s+0x[0-9a-f]+\s+(\S+)\+0x`)
@@ -491,6 +494,10 @@ func goroutineGroups() map[string]int {
 	blocks := strings.Split(buf.String(), "\n\n")
 	for _, blk := range blocks {
 		lines := strings.Split(blk, "\n")
+		if len(lines) > 0 && strings.HasPrefix(lines[0], "goroutine profile:") {
+			// the header line is glued to the first (largest) group
+			lines = lines[1:]
+		}
 		if len(lines) == 0 {
 			continue
 		}
@@ -607,6 +614,13 @@ func c17Cycle(kind string, a, b *netceptor.Netceptor, li *netceptor.Listener, i 
 		ctx, cancel := context.WithTimeout(context.Background(), 300*time.Millisecond)
 		_, _, _ = b.Ping(ctx, "nowhere", 30)
 		cancel()
+	case "ping-unknown-node-bg":
+		_, _, _ = b.Ping(context.Background(), "nowhere", 30)
+	case "ping-expired-bg":
+		_, _, _ = b.Ping(context.Background(), "a", 0)
+	case "traceroute-bg":
+		for range b.Traceroute(context.Background(), "a") {
+		}
 	case "traceroute":
 		ctx, cancel := context.WithTimeout(context.Background(), 15*time.Second)
 		for range b.Traceroute(ctx, "a") {
